@@ -372,7 +372,7 @@ namespace avel {
 
         #if defined(AVEL_AVX512VL) || defined(AVEL_AVX10_1)
         auto mask = b << N;
-        return mask4x32f{__mmask8((decay(m) & ~mask) | mask)};
+        return mask4x32f{__mmask8((decay(m) & ~(decltype(mask)(1) << N)) | mask)};
 
         #elif defined(AVEL_SSE4_1)
         auto mask = avel::bit_cast<float>(b ? -1 : 0);
